@@ -456,11 +456,14 @@ def run(chk):
                  ('C04.R', 'shared with C04: function statement'), ('C04.B', 'shared with C04: parameter binding')):
         chk.rule(r, d)
     chk.rule('C08.E', 'shared with C08: abstract execution of the statement loop over small jump-level models')
-    chk.guard('C08.X', c08.check_dispatch, chk)
+    (chk.advisory if programs_ok else chk.guard)('C08.X', c08.check_dispatch, chk)
     chk.guard('C08.E', c08.check_step, chk)
-    c08._pc_rule(chk)
-    chk.guard('C08.L', c08.check_labels, chk)
-    chk.guard('C08.J', c08.check_truthiness, chk)
+    if programs_ok:
+        chk.advisory('C08.PC', c08._pc_rule, chk)
+    else:
+        c08._pc_rule(chk)
+    (chk.advisory if programs_ok else chk.guard)('C08.L', c08.check_labels, chk)
+    (chk.advisory if programs_ok else chk.guard)('C08.J', c08.check_truthiness, chk)
     chk.guard('C04.W', c04.check_assignment, chk)
     chk.guard('C04.F', c04.check_frames, chk)
     chk.guard('C04.R', c04.check_function_statement, chk)
